@@ -15,7 +15,7 @@ import z3
 from . import ext_C08  # noqa: F401  (object comprehensions `[Node(t, i) for i in ids]`: ext_C08.MODELS, used as contract option `models=`)
 from . import models
 from .engine import ProgExc, Unsupported
-from .values import NArr, NativeMethod, PList, SArr, Sym, fresh_name, kind_of, next_uid, to_z3, zint
+from .values import Iter, NArr, NativeMethod, PList, SArr, Sym, fresh_name, kind_of, next_uid, to_z3, zint
 
 I, B = z3.IntSort(), z3.BoolSort()
 
@@ -113,6 +113,11 @@ def _b_set(eng, args, kwargs):
         used(eng, "set() is the empty set")
         return SymSet(z3.K(I, z3.BoolVal(False)))
     src = args[0]
+    if isinstance(src, Iter):  # set(one-shot iterator) takes everything that is still to come
+        if src.consumed:
+            return _b_set(eng, [], {})
+        inner, src.consumed = src.seq, True
+        return _b_set(eng, [inner], {})
     if isinstance(src, SymSet):
         return SymSet(src.mem, src.name + "_copy")
     if isinstance(src, PList) and src.items is not None and all(kind_of(x) in ("int", "bool") for x in src.items):
@@ -259,6 +264,9 @@ _prev_len = [None]
 def _b_len(eng, args, kwargs):
     if len(args) == 1 and isinstance(args[0], OptPairList):
         return eng.snum(zint(args[0].n), "int")
+    if len(args) == 1 and isinstance(args[0], SymSet) and not eng.spec_mode:  # the number of members = the length of the ghost enumeration (each member once)
+        used(eng, "len(set) is the number of its members")
+        return eng.snum(args[0].enumeration(eng)[1], "int")
     return (_prev_len[0] or models._b_len)(eng, args, kwargs)
 
 
@@ -315,6 +323,11 @@ def _np_fromiter(eng, args, kwargs):
     src = args[0]
     dt = kwargs.get("dtype", args[1] if len(args) > 1 else None)
     k = kind_of_dtype(dt)
+    if isinstance(src, Iter):  # np.fromiter(one-shot iterator) takes everything that is still to come
+        if src.consumed:
+            src = PList([])
+        else:
+            src.consumed, src = True, src.seq
     used(eng, "np.fromiter(iterable, dtype) is a new 1-D array of the iterable's items in iteration order")
     if isinstance(src, SymSet):
         ks, m, pos, _ = src.enumeration(eng)
